@@ -61,9 +61,42 @@ BUILDS = {
 }
 
 
+def extra_features():
+    """Cargo features of yuvxyb / yuvxyb-math that the harness does not know by name (anything beyond default, fastmath and
+    verif-hooks): an opt-in feature added to the crate is a build configuration like any other."""
+    repo = os.environ.get("VERIF_REPO", "/repo")
+    found = []
+    for crate, path in (("yuvxyb", f"{repo}/Cargo.toml"), ("yuvxyb-math", f"{repo}/yuvxyb-math/Cargo.toml")):
+        try:
+            txt = open(path).read()
+        except OSError:
+            continue
+        m = re.search(r"^\[features\]\s*$(.*?)(?=^\[|\Z)", txt, re.M | re.S)
+        if not m:
+            continue
+        for name in re.findall(r"^\s*([A-Za-z0-9_-]+)\s*=", m.group(1), re.M):
+            if name not in ("default", "fastmath", "verif-hooks"):
+                found.append(f"{crate}/{name}")
+    return found
+
+
+ALLFEAT = "fast-nofma-allfeat"
+
+
+def builds_for_c20():
+    """the fixed build matrix, plus one build with every unknown cargo feature switched on when the crate has any"""
+    b = sorted(BUILDS)
+    if extra_features():
+        b.append(ALLFEAT)
+    return b
+
+
 def build_harness(workdir, build="fast-nofma-release"):
     """cargo build (offline, incremental) under a per-target-dir lock; returns the binary path."""
-    args, rustflags = BUILDS[build]
+    if build == ALLFEAT:
+        args, rustflags = (["--release", "--features", ",".join(["fast", "allfeat"] + extra_features())], "")
+    else:
+        args, rustflags = BUILDS[build]
     hdir = HARNESS
     repo = os.environ.get("VERIF_REPO", "/repo")
     if repo != "/repo":
